@@ -448,7 +448,18 @@ def demod_rule(rep: Report, ci: ClassInfo, fi: FuncInfo, tables: List[str]) -> i
         src = full_origin(c.args[0] if (call_name(c) or "") == "torch.argmin" else c.func.value)
         hard.append((c, src))
     if not hard:
-        rep.undecided("LABEL", fi, f"{ci.name}: nearest-point search", "no torch.argmin found in the hard branch")
+        # the search is spelt differently (a helper, a running minimum ...): the hard branch is tabulated at the
+        # constellation points of the paired modulator's own tables
+        try:
+            from .c15 import hard_nearest_tabulated
+
+            st_, d_ = hard_nearest_tabulated(REPO_REF[0], ci, fi) if REPO_REF else (None, "repository handle not available")
+        except Exception as exc:  # the tabulation is a fallback: its failure leaves the obligation undecided
+            st_, d_ = None, f"{type(exc).__name__}: {exc}"
+        if st_ is None:
+            rep.undecided("LABEL", fi, f"{ci.name}: nearest-point search", f"no torch.argmin found in the hard branch; tabulation: {d_}")
+        else:
+            rep.add("LABEL", fi, f"{ci.name}: nearest-point search (tabulated)", st_, d_, node=fi.node)
         return 1
     for c, src in hard:
         pts = {s for s in src if not s.endswith("bit_patterns")}
@@ -1499,7 +1510,12 @@ def reaches(fi: FuncInfo, stmt: ast.stmt, x, b: int) -> Optional[bool]:
         return False
 
 
+#: the repository under analysis, for rules that are handed only class / function records
+REPO_REF: list = []
+
+
 def run(repo: Repo, rep: Report, tier: str) -> None:
+    REPO_REF[:] = [repo]
     mods = registered(repo, "register_modulator")
     dems = registered(repo, "register_demodulator")
     rep.floor("registered modulators", len(mods), 11)
